@@ -1886,8 +1886,8 @@ class ktensor:
         """
         if mode is not None:
             if isinstance(mode, int) and mode in range(self.ndims):
-                self.normalize(mode)
-                return self.factor_matrices.copy()
+                normalized = self.copy().normalize(mode)
+                return normalized.factor_matrices
             assert False, "Input parameter'mode' must be in the range of self.ndims"
 
         # all weights are equal to 1
